@@ -100,7 +100,9 @@ func Verif_C14_done() {
 // a bounded number of completions; and an acceptable completion never lowers
 // the score by more than the truncation unit.
 func Verif_C14_health() {
-	gaps := []time.Duration{time.Microsecond, time.Millisecond, 100 * time.Millisecond, time.Second, 10 * time.Second}
+	// the negative gaps: a concurrent completion stamped the connection AFTER this one read the clock
+	// (completions run lock-free), so the stored stamp is ahead of this completion's 'now'
+	gaps := []time.Duration{time.Microsecond, time.Millisecond, 100 * time.Millisecond, time.Second, 10 * time.Second, -time.Microsecond, -50 * time.Millisecond}
 	cs := verifCase(2 * len(gaps))
 	gap := gaps[cs/2]
 	unacceptable := cs%2 == 1
@@ -123,7 +125,10 @@ func Verif_C14_health() {
 	}
 	done(info)
 	verifAssert(c.success <= verifMaxScore, "success score stays within [0,1000]")
-	if unacceptable {
+	if unacceptable && gap < 0 {
+		verifAssert(c.success <= oSuccess, "an unacceptable completion never raises the success score, also when a concurrent completion's stamp is ahead of it")
+		verifReach("health-down-reordered")
+	} else if unacceptable {
 		verifAssert(c.success < oSuccess, "an unacceptable completion strictly lowers a positive success score (a backend whose calls all fail becomes unhealthy after a bounded number of completions)")
 		verifReach("health-down")
 	} else {
